@@ -1,8 +1,9 @@
 (** Model of route/glob_cache.go as far as the configured size matters
     ([NewGlobCache], [GlobCache.Get]), and of what config/load.go does with
-    [glob.cache.size] (nothing: load.go:245 registers the int flag and no later
-    statement looks at [cfg.GlobCacheSize]; main.go:170,194 pass it to
-    [route.NewGlobCache]).  Whether a pattern compiles ([glob.Compile]) is data
+    [glob.cache.size]: load.go:245 registers the int flag, load.go:364 rejects
+    values <= 0 (fix e17deb4; before it no statement looked at the value, kept as
+    [load_accepts_glob_cache_size_unrepaired]); main.go:170,194 pass it to
+    [route.NewGlobCache].  Whether a pattern compiles ([glob.Compile]) is data
     supplied with each call.  No proofs here (Proofs/GlobCacheSize.v). *)
 From Coq Require Import List NArith ZArith Bool.
 From Fabio Require Import Lib.Outcome Lib.Bytes.
@@ -71,8 +72,19 @@ Fixpoint glob_run (c : gcache) (calls : list (str * bool)) : list (outcome bool)
 Definition glob_session (size : Z) (calls : list (str * bool)) : outcome (list (outcome bool)) :=
   do c <- new_glob_cache size; Ok (glob_run c calls).
 
-(* config/load.go: is a configuration with glob.cache.size = size accepted?  There is no check. *)
-Definition load_accepts_glob_cache_size (size : Z) : bool := true.
+(* config/load.go:364-366 (after fix e17deb4):
+     if cfg.GlobCacheSize <= 0 { return nil, fmt.Errorf("glob.cache.size must be greater than zero") } *)
+Definition load_accepts_glob_cache_size (size : Z) : bool := (0 <? size)%Z.
+
+(* before e17deb4 there was no check (repaired in /repo; refutation theorems only) *)
+Definition load_accepts_glob_cache_size_unrepaired (size : Z) : bool := true.
+
+(* config.Load with glob.cache.size = size, then, if a configuration was returned, main.go's
+   route.NewGlobCache(cfg.GlobCacheSize) and the lookups.  Err 1 = Load returned an error. *)
+Definition load_then_use (size : Z) (calls : list (str * bool)) : outcome (list (outcome bool)) :=
+  if load_accepts_glob_cache_size size then glob_session size calls else Err 1.
+Definition load_then_use_unrepaired (size : Z) (calls : list (str * bool)) : outcome (list (outcome bool)) :=
+  if load_accepts_glob_cache_size_unrepaired size then glob_session size calls else Err 1.
 
 (* "an accepted configuration can be run": creating the cache and the first lookup of a
    compilable pattern do not panic *)
